@@ -22,6 +22,7 @@ build() {
     fi
   ) 9>bin/.lock
 }
+if [ -n "${VERIF_REPO:-}" ] && [ "$VERIF_REPO" != "/repo" ]; then export VERIF_MODFLAG="-modfile=work/go.alt.mod"; fi
 if ! build >work/build-$ID.log 2>&1; then
   cat work/build-$ID.log
   echo "BROKEN: build of monitors against /repo failed"
